@@ -226,7 +226,7 @@ func errorOnlyResult(e ast.Expr) bool {
 
 func genStatic() (string, string) {
 	w := loadWorld()
-	var leaks, exits, untyped, globals []siteRow
+	var leaks, exits, untyped, globals, pkgVars []siteRow
 	mapRanges := 0
 
 	var paths []string
@@ -251,7 +251,25 @@ func genStatic() (string, string) {
 		}
 		for fi, f := range p.files {
 			file := p.rel + "/" + p.names[fi]
+			if strings.HasPrefix(p.names[fi], "verif_") {
+				continue // the verification hooks themselves (build tag verif) are not part of the library
+			}
 			for _, d := range f.Decls {
+				if gd, ok := d.(*ast.GenDecl); ok && gd.Tok == token.VAR {
+					for _, sp := range gd.Specs {
+						vs := sp.(*ast.ValueSpec)
+						for _, id := range vs.Names {
+							if id.Name == "_" {
+								continue
+							}
+							kind := "unknown"
+							if obj := p.info.Defs[id]; obj != nil && obj.Type() != nil {
+								kind = typeKind(obj.Type())
+							}
+							pkgVars = append(pkgVars, siteRow{file, "", kind, id.Name})
+						}
+					}
+				}
 				fd, ok := d.(*ast.FuncDecl)
 				if !ok || fd.Body == nil {
 					continue
@@ -456,10 +474,39 @@ func genStatic() (string, string) {
 	emit("orderLeakSites", "range-over-map statements that build a sequence / string from the iteration and do not sort it afterwards in the same function", leaks)
 	emit("earlyExitSites", "range-over-map statements left by `break` or by a `return` of something else than an error or a literal", exits)
 	emit("globalWrites", "package-level variables written outside `init`", globals)
+	emit("packageVars", "every package-level variable of the library (state that can outlive a load), with the kind of its type", pkgVars)
 	emit("untypedRangeSites", "range statements whose operand could not be typed by the lenient checker (must stay empty or reviewed)", untyped)
 	fmt.Fprintf(&b, "def mapRangeCount : Nat := %d\n\n", mapRanges)
 	b.WriteString("end CV.Gen.Static\n")
 	return "Static.lean", b.String()
+}
+
+// typeKind classifies the type of a package-level variable by what can be mutated through it.
+func typeKind(t types.Type) string {
+	switch u := t.Underlying().(type) {
+	case *types.Map:
+		return "map"
+	case *types.Slice:
+		return "slice"
+	case *types.Pointer:
+		return "pointer"
+	case *types.Signature:
+		return "func"
+	case *types.Struct:
+		return "struct"
+	case *types.Interface:
+		return "interface"
+	case *types.Chan:
+		return "chan"
+	case *types.Array:
+		return "array"
+	case *types.Basic:
+		if u.Kind() == types.Invalid {
+			return "unknown"
+		}
+		return "basic"
+	}
+	return "unknown"
 }
 
 func unref(e ast.Expr) ast.Expr {
